@@ -121,19 +121,38 @@ def upload_window(chk, rng, thorough):
                 ops.append(('read', rng.choice([-1, 0, 1, 3, n + 3, rng.randint(1, max(1, n))]), 0))
         plans.append((st, end, n, ops))
     recs = []
+
+    def call(px, op, a, w):
+        if op == 'seek':
+            return {'op': 'seek', 'a': a, 'w': w, 'tell': px.seek(a, w), 'data': []}
+        d = px.read(None if a < 0 else a)
+        return {'op': 'read', 'a': a, 'w': 0, 'tell': px.tell(), 'data': list(d)}
     for st, end, n, ops in plans:
         src = io.BytesIO(bytes((i + 1) % 256 for i in range(n)))
         px = BytesIOProxy(src, st, end)
-        out = []
-        for op, a, w in ops:
-            if op == 'seek':
-                t = px.seek(a, w)
-                out.append({'op': 'seek', 'a': a, 'w': w, 'tell': t, 'data': []})
-            else:
-                d = px.read(None if a < 0 else a)
-                out.append({'op': 'read', 'a': a, 'w': 0, 'tell': px.tell(), 'data': list(d)})
-        recs.append({'st': st, 'end': end, 'ops': out})
+        recs.append({'st': st, 'end': end, 'ops': [call(px, *o) for o in ops]})
         chk.count(1, ('window', st, end, n, tuple(ops)))
+    # all uploads of a request (and request.body) are windows over ONE shared stream: interleave the calls of two windows
+    # and touch the shared stream in between; each window's own call sequence must still satisfy the window model
+    for i in range(0, len(plans) - 1, 2):
+        (st1, end1, n1, ops1), (st2, end2, n2, ops2) = plans[i], plans[i + 1]
+        n = max(n1, n2)
+        src = io.BytesIO(bytes((j + 1) % 256 for j in range(n)))
+        p1, p2 = BytesIOProxy(src, st1, end1), BytesIOProxy(src, st2, end2)
+        o1, o2 = [], []
+        q1, q2 = list(ops1), list(ops2)
+        while q1 or q2:
+            r_ = rng.random()
+            if q1 and (r_ < 0.45 or not q2):
+                o1.append(call(p1, *q1.pop(0)))
+            elif q2:
+                o2.append(call(p2, *q2.pop(0)))
+            if rng.random() < 0.2:
+                src.seek(rng.randint(0, n))
+                src.read(rng.randint(0, 3))
+        recs.append({'st': st1, 'end': end1, 'ops': o1})
+        recs.append({'st': st2, 'end': end2, 'ops': o2})
+        chk.count(1, ('window-interleaved', st1, end1, st2, end2, n))
     # bytes are i mod 256: keep windows below 255 so that byte value = index
     recs = [t for t in recs if t['end'] < 255]
     missing, fails = core.validate_records(chk, 'BytesProxyTrace', recs, 'upload window')
